@@ -138,6 +138,23 @@ Proof.
   eapply inv_live_ok. exact HI.
 Qed.
 
+(* the same, read off the parse result: every URI the playlist lists names a good segment file *)
+Theorem every_prefix_parsed c evs k f t :
+  cfg_ok c -> wf_evs c Clean evs ->
+  fs_lookup PLive (state_at c evs k) = Some f -> parse_live (fdata f) = Some t ->
+  forall ts, In ts (t_segs t) ->
+    (t_ms ts + 500) / 1000 <= t_target t /\
+    exists sg, t_uri ts = seg_name (c_stream c) sg /\ seg_file_ok (state_at c evs k) sg.
+Proof.
+  intros Hc Hwf Hf Hp ts Hts.
+  destruct (every_prefix_live_ok c evs k Hc Hwf f Hf) as (pl & E & P & HT & HS).
+  rewrite P in Hp. injection Hp as <-. cbn [t_segs abs_pl] in Hts.
+  apply in_map_iff in Hts. destruct Hts as (sg & <- & Hsg).
+  rewrite Forall_forall in HT, HS. split.
+  - cbn. apply (HT sg Hsg).
+  - exists sg. split; [reflexivity|now apply HS].
+Qed.
+
 Lemma inv_live_content c m s f :
   Inv c m s -> fs_lookup PLive s = Some f ->
   0 < nclosed m /\ exists e, fdata f = print_live (c_stream c) (live_playlist c m e).
